@@ -70,7 +70,7 @@ func c04(r *Report) propMeta {
 	r.SameValue("confirm-same-member", tMS+"Confirm", ArgRef{"Keeper.ValidateMemberID", 2}, ArgRef{"Keeper.VerifyOwnPubKeySignature", 2}, ArgRef{"Keeper.HasConfirm", 2})
 	// every complaint of a message comes from the same complainant (ValidateBasic) – otherwise a member could blame in another's name
 	r.Gate("complaints-share-complainant", "x/tss/types.MsgComplain.ValidateBasic", RetOK(), []Cond{
-		{Op: "EQL", A: []string{"field:Complaint.Complainant"}, B: []string{"field:Complaint.Complainant"}, Want: true, Desc: "all complaints have the same complainant"}}, GateOpts{LoopAll: true, LoopMaySkip: true, FailIsError: true}) // the first element is not compared with itself (`i > 0 &&`)
+		{Op: "EQL", A: []string{"field:Complaint.Complainant"}, B: []string{"field:Complaint.Complainant"}, Want: true, Desc: "all complaints have the same complainant"}}, GateOpts{LoopAll: true, LoopMaySkip: true, FailIsError: true, LoopOver: []string{"field:MsgComplain.Complaints"}}) // the first element is not compared with itself (`i > 0 &&`); the loop covers the whole list (seed C04-14 stopped one short)
 	vm := tK + "ValidateMemberID"
 	r.Gate("member-address-check", vm, RetOK(), []Cond{nilErrOf("Keeper.GetMember"), {Op: "EQL", A: []string{"field:Member.Address"}, B: []string{"param:address"}, Want: true, Desc: "member.Address == address"}}, GateOpts{FailIsError: true})
 
